@@ -149,10 +149,22 @@ def prop(run, p, pid, assert_names):
     return n
 
 
-def _reports_failure(stmts):
-    """a block that ends the comparison as failed: raise, return (1, ...), or failures += n somewhere in it"""
+def _reports_failure(stmts, fnode=None):
+    """a block that ends the comparison as failed: raise, return (1, ...), failures += n, or a positive count appended to the
+    list whose sum the function returns as its failure count"""
+    summed = set()
+    if fnode is not None:
+        for r in ast.walk(fnode):
+            if isinstance(r, ast.Return) and isinstance(r.value, ast.Tuple) and r.value.elts:
+                e0 = r.value.elts[0]
+                if isinstance(e0, ast.Call) and getattr(e0.func, 'id', '') == 'sum' and len(e0.args) == 1 and isinstance(e0.args[0], ast.Name):
+                    summed.add(e0.args[0].id)
     for st in stmts:
         for s in ast.walk(st):
+            if isinstance(s, ast.Call) and isinstance(s.func, ast.Attribute) and s.func.attr == 'append' and isinstance(s.func.value, ast.Name) \
+                    and s.func.value.id in summed and len(s.args) == 1 and isinstance(s.args[0], ast.Constant) \
+                    and isinstance(s.args[0].value, int) and s.args[0].value > 0:
+                return True
             if isinstance(s, ast.Raise):
                 return True
             if isinstance(s, ast.Return) and isinstance(s.value, ast.Tuple) and s.value.elts and isinstance(s.value.elts[0], ast.Constant) \
@@ -213,7 +225,7 @@ def exc(run, p, fc):
             if not isinstance(h, ast.ExceptHandler):
                 continue
             n += 1
-            ok = _reports_failure(h.body)
+            ok = _reports_failure(h.body, f.node)
             how = 'reports a failure'
             for s in ast.walk(h):
                 if isinstance(s, ast.Return) and isinstance(s.value, ast.Call):
